@@ -16,6 +16,24 @@ PLAN = [(60, 1500, dict(profile='benign', chunking='bursts', reauth=0.06, nops=1
 def run(ctx, res):
     res.rule = RULE % ASPECTS
     B.run(ctx, res, 'C01', ASPECTS, PLAN)
+    if ctx.tier == 'thorough' and ctx.scale == 1 and not ctx.impl_only:
+        # cross-check of the simulated transport: the same well-behaved histories through a real asyncio loop, a real TCP
+        # server on 127.0.0.1 and real client sockets must make the broker send the same frames to every connection
+        import broker
+        import realloop
+        n = diff = 0
+        for k in range(60):
+            rng = ctx.rng('realloop/%d' % k)
+            case, _ = broker.gen_history(rng, profile='benign', chunking=rng.choice(['frames', 'bursts', 'rand']), nops=8, reauth=0.05)
+            n += 1
+            r = realloop.compare(case)
+            if r:
+                diff += 1
+                res.disagreements.append(dict(case=case, where='real asyncio loop vs simulated transport: ' + r))
+        res.extra['real_loop_replay'] = dict(histories=n, differences=diff,
+                                             what='benign histories replayed over real asyncio TCP transports (harness/realloop.py) and '
+                                                  'compared frame by frame with the simulated-transport driver')
+        res.rule += '; thorough: 60 well-behaved histories are also replayed through a real asyncio loop over loopback TCP'
 
 
 def replay(ctx, case):
